@@ -220,6 +220,15 @@ func (e *Env) WaitIngress() {
 	}
 }
 
+// MustPoint builds an influx point.
+func MustPoint(name string, tags map[string]string, fields map[string]any, t time.Time) imodels.Point {
+	p, err := imodels.NewPoint(name, imodels.NewTags(tags), fields, t)
+	if err != nil {
+		panic(err)
+	}
+	return p
+}
+
 // ---------- fake InfluxDB ----------
 
 type InfluxWrite struct {
